@@ -190,6 +190,52 @@ func runC18View(cfg runCfg) error {
 		w.add(name, "{| vc_src := "+cVSrc(schema)+"; vc_perm := "+afTermFromOperm(perms)+"; vc_obs := "+cTMap(view)+" |}")
 		pb, _ := json.Marshal(perms)
 		in := map[string]interface{}{"schema": sname, "schema_sdl": schemaSDL(schema), "permissions": string(pb)}
+		// the other side of the clause, on the real filter: probe operations along the permission tree, with response keys
+		// that are the names of granted siblings, other fields' names or fresh names
+		okVisible, okKeys, dVisible, dKeys := true, true, "", ""
+		var probes []string
+		for k := 0; k < 6; k++ {
+			root, af, kind := schema.Query, perms.AllowedRootQueryFields, ast.Query
+			if schema.Mutation != nil && len(perms.AllowedRootMutationFields.AllowedSubfields) > 0 && k%3 == 2 {
+				root, af, kind = schema.Mutation, perms.AllowedRootMutationFields, ast.Mutation
+			}
+			pr := rand.New(rand.NewSource(r.Int63()))
+			seed := pr.Int63()
+			build := func(keys bool) *ast.OperationDefinition {
+				return &ast.OperationDefinition{Operation: kind, SelectionSet: genProbe(rand.New(rand.NewSource(seed)), schema, root, af, 1+k%3, keys)}
+			}
+			op, plain := build(true), build(false)
+			text := string(kind) + " " + printProbe(op.SelectionSet)
+			probes = append(probes, text)
+			before := map[*ast.Field]int{}
+			countNodes(op.SelectionSet, before)
+			perms.FilterAuthorizedFields(op)
+			perms.FilterAuthorizedFields(plain)
+			after := map[*ast.Field]int{}
+			countNodes(op.SelectionSet, after)
+			sum.Features["probe_fields_removed"] += len(before) - len(after)
+			for f, n := range after {
+				if n != before[f] || strings.HasPrefix(f.Name, "__") {
+					continue
+				}
+				sum.Features["probe_fields_left_intact"]++
+				if f.Alias != f.Name {
+					sum.Features["probe_fields_left_intact_under_another_key"]++
+				}
+				vt := view.Types[f.ObjectDefinition.Name]
+				if vt == nil || vt.Fields.ForName(f.Name) == nil {
+					okVisible = false
+					dVisible = fmt.Sprintf("filtering leaves %s.%s (selected as %q) and everything under it in place in %s, but the view does not show that field", f.ObjectDefinition.Name, f.Name, f.Alias, text)
+				}
+			}
+			if a, b := namesOnly(op.SelectionSet), namesOnly(plain.SelectionSet); a != b {
+				okKeys = false
+				dKeys = fmt.Sprintf("%s is filtered to %s, the same operation without aliases to %s", text, a, b)
+			}
+		}
+		in["probe_operations"] = probes
+		sum.GoOracle = append(sum.GoOracle, oracleResult{Case: name, Component: "prop.c18.fields_left_intact_are_visible", OK: okVisible, Detail: dVisible},
+			oracleResult{Case: name, Component: "prop.c18.filtering_ignores_response_keys", OK: okKeys, Detail: dKeys})
 		sum.CaseInputs[name] = in
 		if len(sum.Samples) < 3 {
 			sum.Samples = append(sum.Samples, map[string]interface{}{"schema": sname, "permissions": string(pb)})
@@ -206,4 +252,99 @@ func runC18View(cfg runCfg) error {
 	}
 	sum.Cases, sum.Files, sum.Nontrivial = len(w.cases), files, len(distinct)
 	return writeSummary(cfg.out, sum)
+}
+
+// genProbe draws a fragment-free selection set over def that mostly follows the permission tree af; with keys, response keys
+// are drawn from the names the tree grants at that level, the type's other field names, and fresh names.
+func genProbe(r *rand.Rand, s *ast.Schema, def *ast.Definition, af bramble.AllowedFields, depth int, keys bool) ast.SelectionSet {
+	var fields ast.FieldList
+	for _, f := range def.Fields {
+		if !strings.HasPrefix(f.Name, "__") {
+			fields = append(fields, f)
+		}
+	}
+	tn := &ast.Field{Alias: "__typename", Name: "__typename", ObjectDefinition: def}
+	if len(fields) == 0 {
+		return ast.SelectionSet{tn}
+	}
+	granted := sortedKeys(af.AllowedSubfields)
+	var out ast.SelectionSet
+	for k, n := 0, 1+r.Intn(3); k < n; k++ {
+		f := fields[r.Intn(len(fields))]
+		if len(granted) > 0 && !af.AllowAll && r.Intn(3) > 0 {
+			if g := def.Fields.ForName(granted[r.Intn(len(granted))]); g != nil {
+				f = g
+			}
+		}
+		alias := f.Name
+		switch r.Intn(5) {
+		case 0:
+			if len(granted) > 0 {
+				alias = granted[r.Intn(len(granted))]
+			}
+		case 1:
+			alias = fields[r.Intn(len(fields))].Name
+		case 2:
+			alias = fmt.Sprintf("zz%d", r.Intn(3))
+		}
+		if !keys {
+			alias = f.Name
+		}
+		fld := &ast.Field{Alias: alias, Name: f.Name, ObjectDefinition: def, Definition: f}
+		if ft := s.Types[f.Type.Name()]; ft != nil && ft.IsCompositeType() {
+			_, sub := af.IsAllowed(f.Name)
+			if af.AllowAll {
+				sub = af
+			}
+			if depth > 0 {
+				fld.SelectionSet = genProbe(r, s, ft, sub, depth-1, keys)
+			} else {
+				fld.SelectionSet = ast.SelectionSet{&ast.Field{Alias: "__typename", Name: "__typename", ObjectDefinition: ft}}
+			}
+		}
+		out = append(out, fld)
+	}
+	return out
+}
+
+func printProbe(ss ast.SelectionSet) string {
+	var parts []string
+	for _, s := range ss {
+		f := s.(*ast.Field)
+		t := f.Name
+		if f.Alias != f.Name {
+			t = f.Alias + ": " + f.Name
+		}
+		if f.SelectionSet != nil {
+			t += " " + printProbe(f.SelectionSet)
+		}
+		parts = append(parts, t)
+	}
+	return "{ " + strings.Join(parts, " ") + " }"
+}
+
+// namesOnly: the selection set with schema names only (what was selected, not under which key).
+func namesOnly(ss ast.SelectionSet) string {
+	var parts []string
+	for _, s := range ss {
+		f := s.(*ast.Field)
+		t := f.Name
+		if f.SelectionSet != nil {
+			t += " " + namesOnly(f.SelectionSet)
+		}
+		parts = append(parts, t)
+	}
+	return "{ " + strings.Join(parts, " ") + " }"
+}
+
+// countNodes records, for every field, the number of fields under it.
+func countNodes(ss ast.SelectionSet, m map[*ast.Field]int) int {
+	n := 0
+	for _, s := range ss {
+		f := s.(*ast.Field)
+		c := countNodes(f.SelectionSet, m)
+		m[f] = c
+		n += 1 + c
+	}
+	return n
 }
